@@ -143,6 +143,15 @@ func deriveAndSign(label string, path []uint32, subset []int, step int, stored [
 		fail("sign/setup/failed", "cannot build the signing parties", err.Error())
 		return
 	}
+	// what the party constructors were handed (netrun keeps its own copy of the slice and of x_i)
+	held := func() []string {
+		out := make([]string, len(nw.Nodes))
+		for i, n := range nw.Nodes {
+			out[i] = statehash.Hash(n.EcKey)
+		}
+		return out
+	}
+	heldBefore := held()
 	type runRes struct {
 		err    *tss.Error
 		panics []string
@@ -194,7 +203,7 @@ func deriveAndSign(label string, path []uint32, subset []int, step int, stored [
 	}
 	out.ok = true
 	// the data handed to the parties (by value) is untouched by signing: x_i in particular
-	if !sameHashes(before, hashAll(keys)) {
+	if !sameHashes(before, hashAll(keys)) || !sameHashes(heldBefore, held()) {
 		fail("sign/keydata/changed-by-signing", "the key data handed to NewLocalPartyWithKDD changed during signing", "")
 	}
 	// the stored data (never passed through the adjustment) is as it was, and equals a fresh load
@@ -270,7 +279,7 @@ func runSigning(r *core.Run, thorough bool) {
 	seqSubsets := subsets
 	if !thorough {
 		single = [][]int{subsets[0], subsets[4], subsets[9]} // {0,1,2},{0,2,4},{2,3,4}: every party signs
-		seqSubsets = single
+		seqSubsets = [][]int{subsets[4]}
 	}
 	var jobs []signJob
 	for _, p := range signPaths {
